@@ -208,8 +208,11 @@ def setupFromFile(foldername, constantFile: str = None, **kwargs):
     else:
         list_of_files = glob("{0}/grid_*".format(foldername))
         if (len(list_of_files) > 0):
-            filename = max(list_of_files)
-            t = int(filename.split('_')[-1].split('.')[0])
+            # the file with the numerically largest time (names are only zero padded to 6 digits)
+            filename = max(list_of_files, key=lambda f: float(
+                os.path.splitext(os.path.basename(f))[0].split('_')[-1]))
+            t_str = os.path.splitext(os.path.basename(filename))[0].split('_')[-1]
+            t = float(t_str) if '.' in t_str else int(t_str)
         else:
             filename = None
             t = 0
